@@ -159,7 +159,7 @@ def extract_group_none(pattern, text):
     return None
 
 
-def model_eval(cases, max_rounds=80):
+def model_eval(cases, max_rounds=80, op='eval'):
     """cases: [{'expr': ast-json, 'ctx': ctx-json, 'convert_py': bool}] → list of outcomes.
     Outcome: {'ok': val} | {'err': 'expr'} | {'err': 'py', 'cls': …} | {'err': 'unmodelled', 'why': …}."""
     d = common.Driver()
@@ -169,7 +169,7 @@ def model_eval(cases, max_rounds=80):
     for _ in range(max_rounds):
         if not pending:
             break
-        batch = [dict(cases[i], op='eval', oracle=tables[i]) for i in pending]
+        batch = [dict(cases[i], op=op, oracle=tables[i]) for i in pending]
         outs = d.batch(batch)
         nxt = []
         for i, o in zip(pending, outs):
@@ -208,9 +208,70 @@ def impl_outcome(fn):
         return {'err': 'py', 'cls': type(e).__name__}
 
 
-def impl_eval(expr, txn, variables=None, data_sources=None):
+def impl_eval(expr, txn, variables=None, data_sources=None, root=True):
+    """root=True: through `_eval_Expression` (where Python exceptions become ExpressionError);
+    root=False: the expression body directly, so that the raw exception class is observed."""
     from tally import expr_parser as EP
-    return impl_outcome(lambda: EP.evaluate_transaction(expr, txn, variables, data_sources))
+    if root:
+        return impl_outcome(lambda: EP.evaluate_transaction(expr, txn, variables, data_sources))
+
+    def body():
+        tree = EP.parse_expression(expr)
+        ctx = EP.TransactionContext.from_transaction(txn, variables, data_sources)
+        return EP.TransactionEvaluator(ctx).evaluate(tree.body)
+    return impl_outcome(body)
+
+
+def parse_or_none(text):
+    from tally import expr_parser as EP
+    try:
+        return ast_json(EP.parse_expression(text).body)
+    except EP.ExpressionError:
+        return None
+
+
+def tag_spec(tag):
+    """How `_resolve_tags` reads one raw tag text."""
+    t = tag.strip()
+    if not t:
+        return {'k': 'blank'}
+    if t.startswith('{') and t.endswith('}'):
+        e = t[1:-1].strip()
+        if not e:
+            return {'k': 'blank'}
+        return {'k': 'dynamic', 'expr': parse_or_none(e)}
+    return {'k': 'static', 'text': t}
+
+
+def engine_case(eng, txn, mode, data_sources=None):
+    """op `engine`: the whole MerchantEngine.match on the evaluator model."""
+    return {
+        'mode': mode,
+        'ctx': ctx_json(txn, None, data_sources),
+        'variables': [[k, parse_or_none(v)] for k, v in eng.variables.items()],
+        'rules': [{'line': r.line_number, 'name': r.name, 'merchant': r.merchant, 'category': r.category,
+                   'subcategory': r.subcategory, 'priority': r.priority, 'match': r.match_expr,
+                   'match_ast': parse_or_none(r.match_expr),
+                   'lets': [[n, parse_or_none(e)] for n, e in r.let_bindings],
+                   'tag_specs': [tag_spec(t) for t in sorted(r.tags)],
+                   'field_asts': [[n, parse_or_none(e)] for n, e in r.fields.items()]} for r in eng.rules]}
+
+
+def canon_field(v):
+    import datetime as _dt
+    if isinstance(v, bool):
+        return f'bool:{v}'
+    if isinstance(v, int):
+        return f'int:{v}'
+    if isinstance(v, float):
+        return f'float:{float_bits(v)}'
+    if isinstance(v, str):
+        return f'str:{v}'
+    if v is None:
+        return 'NoneType:None'
+    if isinstance(v, _dt.date) and not isinstance(v, _dt.datetime):
+        return f'date:{v.isoformat()}'
+    return f'{type(v).__name__}:?'
 
 
 def same_outcome(a, b):
